@@ -466,6 +466,28 @@ func (h *harness) doStart(i int, st *kernel.Step, k int) {
 			pub, sub, err = h.w.StartWatchingSubChannel(context.Background(), staticIDs[0], ss)
 		}
 	}()
+	h.a.mu.Lock()
+	scriptedFailure := err != nil && h.a.subFailed[k]
+	h.a.mu.Unlock()
+	if scriptedFailure {
+		// the chain subscription could not be set up: StartWatching fails and
+		// the channel is exactly as watched (or not) as before - for a
+		// sub-channel that was de-registered this includes its archived state
+		h.mu.Lock()
+		h.tick(chName(k), "start.ret", "error: scripted Subscribe failure")
+		c.eps = c.eps[:len(c.eps)-1]
+		c.pubs = c.pubs[:len(c.pubs)-1]
+		c.next = v0
+		if !restart {
+			c.started = false
+			c.next = 0
+		}
+		c.startInFlight = false
+		h.snapshot()
+		h.mu.Unlock()
+		h.s.Count("fault.subscribe_failure", 1)
+		return
+	}
 	h.mu.Lock()
 	rec.ret = h.tick(chName(k), "start.ret", errText(err))
 	rec.err = err
@@ -795,6 +817,12 @@ func runScenario(t *testing.T, sc *kernel.Scenario, trace bool) *kernel.Result {
 			f := &sc.Faults[i]
 			if f.Op == "regfail" {
 				h.a.fail[int(f.Int("n"))] = true
+			}
+			if f.Op == "subfail" {
+				if h.a.failSub == nil {
+					h.a.failSub = map[int]bool{}
+				}
+				h.a.failSub[int(f.Int("n"))] = true
 			}
 		}
 		w, err := local.NewWatcher(h.a)
